@@ -54,9 +54,12 @@ pub fn run(ctx: &Ctx) {
             }
         }
     });
-    let bad = ["0xg", "ab", "0x ", "0x\u{e9}", "0x1g", "x1", "", "1", "0x-1", "0x1 ", " 0x1", "0x0x1", "0x1\u{ff11}", "0xG"];
+    let mut bad: Vec<String> = ["0xg", "ab", "0x ", "0x\u{e9}", "0x1g", "x1", "", "1", "0x-1", "0x1 ", " 0x1", "0x0x1", "0x1\u{ff11}", "0xG", "0x+", "0x+a", "0x+F", "0x1+", "0xa+b", "0x-a", "0x+1a"].iter().map(|s| s.to_string()).collect();
+    // every printable ASCII character that is not a hex digit, in each position of one- and two-digit prefixes
+    for ch in (0x20u8..0x7f).map(|b| b as char).filter(|c| !c.is_ascii_hexdigit()) { for t in [format!("0x{ch}"), format!("0x{ch}a"), format!("0xa{ch}"), format!("0x{ch}{ch}")] { if !bad.contains(&t) { bad.push(t); } } }
+    let bad: Vec<&str> = bad.iter().map(|s| s.as_str()).collect();
     let open = ["0x", "0X1"];
-    ctx.sweep("prefix-grammar", "non-hexadecimal prefixes must be refused (empty prefix and 0X are unconstrained), -j {0,1}", ((bad.len() + open.len()) * 2) as u64, |i| {
+    ctx.sweep("prefix-grammar", "non-hexadecimal prefixes must be refused: hand-picked ones and every printable non-hex ASCII character in every position of one- and two-digit prefixes (empty prefix and 0X are unconstrained), -j {0,1}", ((bad.len() + open.len()) * 2) as u64, |i| {
         let k = i as usize / 2; let j = ["0", "1"][i as usize % 2]; let (p, must_reject) = if k < bad.len() { (bad[k], true) } else { (open[k - bad.len()], false) };
         let cmd = Cmd::new(&["new", "--vanity-prefix", p, "-j", j]).timeout(60);
         let (r, _, full) = run_shimmed(&cmd, Build::Release, &Mode::Stream { seed: 9, fail_at: Some(400) }, "prefix-grammar", i);
